@@ -7,11 +7,11 @@ import typing
 import z3
 
 from .explore import NeedFork
-from .sym import (Opt, Maybe, Sym, SBool, SInt, SStr, SSeq, SSet, SRef, SObj, MutSet, OutOfSubset, B, I, S, And, Or, Not, Ite,
+from .sym import (EngineValue, Opt, Maybe, Sym, SBool, SInt, SStr, SSeq, SSet, SRef, SObj, MutSet, OutOfSubset, B, I, S, And, Or, Not, Ite,
                   has_sym, kind_of, concrete_of, KSet, KSeq, KStr, KInt, KBool, simp, str_of_int)
 
 
-class Model:
+class Model(EngineValue):
     """A callable implemented by the engine: fn(interp, *args, **kw)."""
 
     def __init__(self, fn, name=None):
@@ -21,7 +21,7 @@ class Model:
         return f"<Model {self.name}>"
 
 
-class ModelHost:
+class ModelHost(EngineValue):
     """Base for engine-side objects that interpreted code may hold (ghost files...)."""
 
     def truth_term(self, it):
@@ -542,10 +542,13 @@ def gen_items(it, g):
 def iter_concrete(it, v):
     """Items of an iterable with a concrete spine (else OutOfSubset)."""
     from .interp import GenResult
+    v = it.deopt(v)
     if isinstance(v, GenResult):
         v = gen_items(it, v)
     if isinstance(v, (tuple, list)):
         return list(v)
+    if isinstance(v, (Opt, Maybe)):
+        raise OutOfSubset("iteration over an optional value")
     if isinstance(v, (SSeq, SSet, MutSet, SStr)):
         if isinstance(v, MutSet) and v.val is None:
             return []
@@ -910,6 +913,21 @@ def m_dict(it, v=(), **kw):
 
 @model(sorted)
 def m_sorted(it, v, key=None, reverse=False):
+    from .interp import GenResult
+    if isinstance(v, GenResult):
+        v = gen_items(it, v)
+    if isinstance(v, (MutSet, SSet, SSeq)) and not (isinstance(v, MutSet) and v.val is None):
+        if key is not None or reverse:
+            raise OutOfSubset("sorted(key=/reverse=) over a symbolic collection")
+        # fresh list with the same elements, marked sorted (uninterpreted predicate)
+        from . import theory
+        src = set_term(it, v)
+        r = KSeq(src.kind.elem, "list").fresh("sorted")
+        it.ex.assume(r.as_set() == src)
+        if isinstance(v, SSeq):
+            it.ex.assume(r.length() == v.length())
+        it.ex.assume(SBool(theory.ufun(f"is_sorted_{src.kind.elem.name}", r.t.sort(), z3.BoolSort())(r.t)))
+        return r
     items = iter_concrete(it, v)
     if not has_sym(items) and key is None:
         return sorted(items, reverse=reverse)
